@@ -47,7 +47,7 @@ def run(rep, work, tier, seed, only=None):
         if und is None or not und['ok']:
             continue
         rep.count(rec['cls'] + ':' + rec['deformation'])
-        cc.report_hist_diff(rep, rec, key)
+        cc.report_hist_diff(rep, rec, key, queries=True)
         m, bad = masks(rec)
         moved = sum(1 for t in rec['deform_dicts'] if t[:3] != ['X', 'Y', 'Z'])
         rep.case(key, moved > 0, sample={'instance': key, 'n': rec['n'], 'qubits_relabelled': moved})
